@@ -5,6 +5,9 @@ CONSTANTS
   MaxObjFields = 1
   MaxUnionFields = 1
   MapExprs = FALSE
+  Kinds = {"enum","alias","object","union"}
+  Bearer = TRUE
+  Decls = {"safe","unsafe","dnl"}
   ArgMode = "free"
   MaxArgs = 2
   EmitMod = 60
